@@ -6,7 +6,7 @@ Parameters of the model (stated contracts): `chunks` is `textwrap.TextWrapper().
 whose only assumed property is `chunks.flatten = munge t` (and no empty chunk); the text `s` is what
 `ircutils.safeArgument` returned; `irc.isChannel` enters through three booleans of `Env`.
 -/
-import LimnoriaModel.C12.LemmasColour
+import LimnoriaModel.C12.LemmasStrip
 namespace C12
 open Py
 
@@ -487,6 +487,22 @@ theorem fits_512_clean (e : Env) (cfg : Cfg) (chunks : List Str) (s : Str) (allo
       ∀ o ∈ now ++ stored.getD [], blen (wire e o) ≤ 512 :=
   fits_512_partial e cfg chunks s allowed s1 hauto hprep hE hcontract hne h4
     (coherent_clean chunks s1 hcontract _ (by omega) hclean)
+
+/-- `ircutils.wrap` on any text — colours, over-long words, multi-byte characters — whose wrapped lines
+start cleanly: every line fits, and the visible text of the lines, concatenated, is the visible text of
+the (munged) input: nothing lost, nothing invented.  (When a line does start with a digit or a comma
+after a colour code the statement is false: `visible_text_counterexample`, `ircWrap_fits_counterexample`.) -/
+theorem visible_text_clean (chunks : List Str) (s : Str) (hcontract : chunks.flatten = munge s)
+    (length : Nat) (h4 : (parse s).maxSize + 4 ≤ length) (hclean : cleanWrap chunks s length = true) :
+    ∃ lines, ircWrap chunks s length = .ok lines ∧ (∀ l ∈ lines, blen l ≤ length) ∧
+      (lines.map stripFormatting).flatten = stripFormatting (munge s) := by
+  obtain ⟨lines, h1, h2⟩ := ircWrap_fits_clean chunks s hcontract length h4 hclean
+  obtain ⟨raw, hraw, hwrap, hflat, _⟩ := ircWrap_struct chunks s length h4
+  rw [hwrap] at h1; injection h1 with h1; subst h1
+  refine ⟨_, hwrap, h2, ?_⟩
+  unfold cleanWrap at hclean
+  rw [hraw] at hclean
+  rw [strip_processLines_all colour_ok raw hclean, hflat, hcontract]
 
 def clText : Str := [Char.ofNat 3, '4'] ++ "red ".toList ++ [Char.ofNat 3, '0', ',', '1'] ++ "white on black".toList ++
   [Char.ofNat 15] ++ " plain".toList
